@@ -46,7 +46,7 @@ def structure(draw, ground=False, max_wires=4, max_seg=10, min_seg=1, seg_lo=1 /
     """Returns (wires, info) in wavelengths.  wires: list of dict(n,p1,p2,r).  ground: bool.
     thick: None = any radius, True = radius > 1e-4 lambda, False = thin"""
     s0 = draw(logf(seg_lo * 1.0, seg_hi / 1.0))
-    kind = draw(st.sampled_from(['tree'] * 6 + (['loop'] * 2 if allow_loop else []) + (['two'] if allow_two else [])
+    kind = draw(st.sampled_from(['tree'] * 6 + (['loop'] * 2 if allow_loop else []) + (['two', 'parallel'] if allow_two else [])
                                 + ['star'] * star))
     info = {'template': kind}
 
@@ -75,6 +75,7 @@ def structure(draw, ground=False, max_wires=4, max_seg=10, min_seg=1, seg_lo=1 /
         kind = 'tree'
 
     def tree(origin, nw, grounded_root):
+        stub = {}
         nodes = [np.array(origin, float)]
         used = {0: set()}
         out = []
@@ -95,9 +96,16 @@ def structure(draw, ground=False, max_wires=4, max_seg=10, min_seg=1, seg_lo=1 /
                 # keep away from ground: no downward directions unless a deliberate drop
                 cand = [k for k in cand if k in HORIZ_OR_UP] or cand
             k = draw(st.sampled_from(cand))
-            d = DIRS[k]
-            n = draw(st.integers(max(min_seg, 2) if i == 0 else min_seg, max_seg))
+            # (a grounded root of a single segment - a short feed stub - in a quarter of the grounded cases)
+            n = draw(st.integers(max(min_seg, 2) if (i == 0 and not (grounded_root and draw(st.integers(0, 3)) == 0)) else min_seg, max_seg))
             sl = seglen()
+            if i == 0 and grounded_root and n == 1 and draw(st.integers(0, 3)) > 0:
+                # a vertical stub; whatever is attached above it keeps one segment length clear of the ground
+                k = 4
+                stub['h'] = sl
+            elif stub:
+                sl = min(sl, stub['h'])
+            d = DIRS[k]
             end = nodes[a] + d * n * sl
             nodes.append(end)
             used[a].add(k)
@@ -151,6 +159,27 @@ def structure(draw, ground=False, max_wires=4, max_seg=10, min_seg=1, seg_lo=1 /
         else:
             lift = not groot
         wires = w1 + w2
+    elif kind == 'parallel':
+        # an array of 2..4 parallel straight elements (Yagi, phased verticals): all wires have exactly the same
+        # direction; over ground vertical monopoles on the ground or elevated elements
+        ne = draw(st.integers(2, max(2, min(4, max_wires))))
+        vertical = draw(st.booleans())
+        groot = ground and vertical and draw(st.booleans())
+        info['grounded_root'] = groot
+        d = np.array([0.0, 0.0, 1.0]) if vertical else np.array([0.0, 1.0, 0.0])
+        u = np.array([1.0, 0.0, 0.0])
+        x = 0.0
+        for i in range(ne):
+            n = draw(st.integers(max(min_seg, 2), max_seg))
+            sl = seglen()
+            L = n * sl
+            if groot:
+                a = np.array([x, 0.0, 0.0])
+            else:
+                a = u * x - d * L / 2 * (1 if draw(st.booleans()) else draw(st.floats(0.6, 1.4)))
+            wires.append(dict(n=n, p1=a.copy(), p2=a + d * L, r=radius(sl), _sl=sl))
+            x += max(draw(st.floats(0.05, 0.5)), 2.5 * max(sl, s0))
+        lift = not groot
     else:
         k = draw(st.integers(3, 6))
         n = draw(st.integers(max(1, min_seg), max(1, min(max_seg, 24 // k))))
